@@ -25,6 +25,29 @@ CLAIMED = {
         "value; 20-sweep Lattice.finalize_constraints() only contract-checked; one listed known finding exempted by "
         "configuration class; beyond the enumerated constants the evidence is sampling.",
         "DESIGN.md section 3 (C01)"),
+    "C06": (
+        "TLA+ state machine of the partial-order projection (DFS topological sort, min/max passes) and of "
+        "linear_lib.project / categorical project, model-checked over all DAGs; TLC-enumerated cases replayed; results "
+        "validated by TLC",
+        "TLC explores every acyclic pair set on 3 (quick) / 4 (thorough: all 543) nodes as categorical orderings and as "
+        "monotonic / range dominance graphs, with sign patterns, input ranges, bounds and L1 normalisation, on every "
+        "integer weight vector: the DFS yields a topological order, both min/max candidates are feasible, the final "
+        "weights satisfy signs, every ordering / dominance pair, bounds and unit norm, feasible weights are unchanged. "
+        "The same cases run through LinearConstraints / CategoricalCalibrationConstraints and the layers; TLC validates "
+        "recorded results (contracts -> VIOLATION, algorithm equality -> DRIFT); random DAGs up to 8 nodes, L2 norm.",
+        "L2 normalisation is not rational: only its contract (sum of squares = 1 unless numerically zero) is checked; "
+        "float32 tolerance 32 units of 2^-21 relative.",
+        "DESIGN.md section 3 (C06)"),
+    "C20": (
+        "TLA+ definition of the clipped affine function with its consequences model-checked by TLC; real Linear layer "
+        "outputs validated by TLC against the definition",
+        "TLC checks on the model that for every weight vector satisfying the C06 contract the function is monotone in "
+        "each constrained input across every grid step, dominant inputs dominate (per unit step / across ranges) and "
+        "an L1-normalised all-increasing layer is a weighted average. Every (configuration, kernel, input point) of the "
+        "enumerated space and random dyadic cases are evaluated by tfl.layers.Linear (units>1 and units=1) and TLC "
+        "recomputes bias + sum k_i*clip(x_i) exactly for each recorded event (identity -> VIOLATION on mismatch).",
+        "Inputs/weights are dyadic so the expected value is exact; outputs compared within 4/2^14.",
+        "DESIGN.md section 3 (C20)"),
     "C08": (
         "TLC action properties on the Dykstra state machine (exact projection per group, roll-back bookkeeping, "
         "fixed points); real project_by_dykstra runs for increasing iteration counts validated by TLC (convergence, "
